@@ -74,8 +74,14 @@ var markdownEscaper = strings.NewReplacer(
 // lineStartMarker 匹配行首会被解析为列表标记的文本
 var lineStartMarker = regexp.MustCompile(`^(\d{1,9})([.)])(\s|$)|^([-+])(\s|$)`)
 
-// escapeLineStart 转义行首的列表标记（"1." "-" "+"）
+// thematicBreakLine 匹配整行会被解析为分隔线的文本（"---" "- - -"；"*" 和 "_" 已由 markdownEscaper 转义）
+var thematicBreakLine = regexp.MustCompile(`^-[ \t]*-[ \t]*-[- \t]*$`)
+
+// escapeLineStart 转义行首的列表标记（"1." "-" "+"）和整行的分隔线（"---"）
 func escapeLineStart(text string) string {
+	if thematicBreakLine.MatchString(text) {
+		return "\\" + text
+	}
 	loc := lineStartMarker.FindStringSubmatchIndex(text)
 	if loc == nil {
 		return text
